@@ -72,7 +72,12 @@ def cases(rng):
         ("_mann_kendall_trend_gu int16", stats._mann_kendall_trend_gu, [x16], [0]),
         ("_mann_kendall_trend_gu_nd float32", stats._mann_kendall_trend_gu_nd, [yg.astype("float32"), -3000.0], [0]),
         ("mean_grp", stats.mean_grp, [x16, groups, 2.0, nd], [0, 1]),
+        ("mean_grp int32", stats.mean_grp, [x16.astype("int32"), groups, 2.0, nd], [0]),
+        ("mean_grp float32", stats.mean_grp, [x16.astype("float32"), groups, 2.0, nd], [0]),
         ("rolling_sum", stats.rolling_sum, [x16, 3.0, nd], [0]),
+        ("rolling_sum int32", stats.rolling_sum, [x16.astype("int32"), 3.0, nd], [0]),
+        ("rolling_sum int64", stats.rolling_sum, [x16.astype("int64"), 3.0, nd], [0]),
+        ("rolling_sum float32", stats.rolling_sum, [x16.astype("float32"), 3.0, nd], [0]),
     ]
 
 
@@ -82,8 +87,10 @@ def _same(a, b):
     return len(a) == len(b) and all(np.array_equal(np.asarray(u), np.asarray(v), equal_nan=np.asarray(u).dtype.kind == "f") for u, v in zip(a, b))
 
 
-def probe(ctx, required):
+def probe(ctx, required, only=None):
     for name, fn, args, arr_ix in cases(ctx.rng):
+        if only is not None and not any(name == o or name.startswith(o + " ") for o in only):
+            continue
         ref = fn(*args)
         for ix in arr_ix:
             for how, view in _views(args[ix], ctx.rng):
